@@ -2,6 +2,7 @@
     for every composition, end time and fuel.  (States hold functions; they are compared pointwise, no axiom.) *)
 From Coq Require Import List ZArith Bool Arith Lia.
 From FV Require Import Base Sched SchedSparse.
+From FVP Require Confluence_proofs.
 Import ListNotations.
 Open Scope Z_scope.
 
@@ -71,8 +72,8 @@ Qed.
 Lemma find_deps_from_ext cs a b c : st_eq a b -> forall ins k t deps,
   find_deps_from cs a c k ins t deps = find_deps_from cs b c k ins t deps.
 Proof.
-  intros E. induction ins as [|x ins IH]; intros k t deps; simpl; [reflexivity|].
-  rewrite (link_dep_ext cs a b c k x t E). destruct E as [ET _] eqn:EE. rewrite (ET (fst (i_src x))). apply IH.
+  intros E. pose proof (proj1 E) as ET. induction ins as [|x ins IH]; intros k t deps; simpl; [reflexivity|].
+  rewrite (link_dep_ext cs a b c k x t E). rewrite (ET (fst (i_src x))). apply IH.
 Qed.
 
 Lemma find_deps_ext cs a b c t : st_eq a b -> find_deps cs a c t = find_deps cs b c t.
@@ -95,6 +96,33 @@ Qed.
 Lemma final_times_ext cs a b : st_eq a b -> final_times cs a = final_times cs b.
 Proof. intros [ET _]. unfold final_times. apply map_ext. intros k. now rewrite ET. Qed.
 
+(** pulls do not touch the time field *)
+Lemma pull_list_time rec : forall ins k0 s a s' a' e,
+  (forall k x s1 a1 s2 a2 e2, rec k x s1 a1 = (s2, a2, e2) -> s_time s2 = s_time s1) ->
+  pull_list rec k0 ins s a = (s', a', e) -> s_time s' = s_time s.
+Proof.
+  induction ins as [|x ins IH]; intros k0 s a s' a' e Hrec H; simpl in H; [inversion H; reflexivity|].
+  destruct (rec k0 x s a) as [[s2 a2] e2] eqn:R2. pose proof (Hrec _ _ _ _ _ _ _ R2) as E2.
+  destruct e2; [inversion H; subst; exact E2|]. rewrite (IH _ _ _ _ _ _ Hrec H). exact E2.
+Qed.
+
+Lemma pull_input_time cs fuel : forall s c k x t a s2 a2 e2,
+  pull_input fuel cs s c k x t a = (s2, a2, e2) -> s_time s2 = s_time s.
+Proof.
+  induction fuel as [|fuel IH]; intros s c k x t a s2 a2 e2 H; simpl in H; [inversion H; reflexivity|].
+  destruct (pull_chain _ _ _ _ _) as [[r b] ss']. destruct (is_static_src cs (i_src x)); [inversion H; reflexivity|].
+  destruct b; [inversion H; reflexivity|].
+  destruct (is_time cs (fst (i_src x))); [inversion H; reflexivity|].
+  apply pull_list_time in H; [exact H|]. intros k1 x1 s1 a1 s3 a3 e3 R1. eapply IH; eauto.
+Qed.
+
+Lemma pull_all_time cs fuel s c ins t a s' a' e :
+  pull_all fuel cs s c ins t a = (s', a', e) -> s_time s' = s_time s.
+Proof.
+  unfold pull_all. intros H. apply pull_list_time in H; [exact H|].
+  intros k1 x1 s1 a1 s3 a3 e3 R1. eapply pull_input_time; eauto.
+Qed.
+
 (** ** the simulation *)
 Definition dense (pe : list nat) : Prop := forall c, pe_of pe c = 1%nat.
 
@@ -107,43 +135,102 @@ Qed.
 
 Definition R (sp : state) (pub : nat -> Z) (st : state) : Prop := st_eq sp st /\ forall x, pub x = s_time st x.
 
-Lemma R_with_time sp pub st : R sp pub st -> st_eq (with_time sp pub) st.
-Proof. intros [[ET [EC EL]] P]. unfold with_time. split; [exact P|]. split; [exact EC|exact EL]. Qed.
+Lemma R_with_time sp pub st : R sp pub st -> st_eq st (with_time sp pub).
+Proof.
+  intros [[ET [EC EL]] P]. unfold with_time. split; [intros x; symmetry; apply P|].
+  split; [intros x; symmetry; apply EC|intros x y; symmetry; apply EL].
+Qed.
 
 Lemma do_update_sim cs pe (D : dense pe) sp pub st c acc st' acc' e :
   R sp pub st -> do_update cs st c acc = (st', acc', e) ->
   exists sp' pub', do_update_sp cs pe sp pub c acc = (sp', pub', acc', e) /\ R sp' pub' st'.
 Proof.
-  intros HR H. pose proof (R_with_time sp pub st HR) as EW. destruct HR as [E P]. destruct E as [ET [EC EL]] eqn:EE. clear EE.
+  intros HR H. pose proof (R_with_time sp pub st HR) as EW. destruct HR as [E P].
+  destruct E as [ET [EC EL]] eqn:EE. clear EE.
   unfold do_update in H. unfold do_update_sp.
   rewrite (next_time_ext cs sp st c E).
   destruct (pull_all (S (length cs)) cs st c (c_inputs (getc cs c)) (next_time cs st c) (EU c (next_time cs st c) :: acc))
     as [[s1 a1] e1] eqn:PA.
-  assert (EW' : st_eq st (with_time sp pub)).
-  { destruct EW as [A [B C]]. repeat split; intros; symmetry; auto. }
-  destruct (pull_all_ext cs _ _ _ _ _ _ _ _ _ _ EW' PA) as [w1 [PW [_ [_ E1L]]]].
+  destruct (pull_all_ext cs _ _ _ _ _ _ _ _ _ _ EW PA) as [w1 [PW [_ [_ E1L]]]].
   rewrite PW. inversion H; subst st' acc' e. clear H.
   assert (Pub : publishes pe c (S (s_cnt sp c)) = true).
   { unfold publishes. rewrite (D c). now rewrite Nat.mod_1_r. }
   rewrite Pub. eexists; eexists. split; [reflexivity|].
+  pose proof (pull_all_time _ _ _ _ _ _ _ _ _ _ PA) as T1.
   split.
-  - split; [apply upd_ext; exact ET|]. split; [simpl; rewrite (EC c); apply upd_ext; exact EC|].
-    simpl. intros x y. symmetry. apply E1L.
-  - simpl. intros x. unfold upd. destruct (Nat.eqb x c); [reflexivity|].
-    (* the time field of the state after the pulls is the one before *)
-    rewrite P. clear -PA.
-    assert (G : forall fuel s c0 k x t a s' a' e', pull_input fuel cs s c0 k x t a = (s', a', e') -> s_time s' = s_time s).
-    { induction fuel as [|fuel IH]; intros s c0 k x0 t a s' a' e' H; simpl in H; [inversion H; reflexivity|].
-      destruct (pull_chain _ _ _ _ _) as [[r b] ss']. destruct (is_static_src cs (i_src x0)); [inversion H; reflexivity|].
-      destruct b; [inversion H; reflexivity|]. destruct (is_time cs (fst (i_src x0))); [inversion H; reflexivity|].
-      revert H. generalize (ES (fst (i_src x0)) (snd (i_src x0)) r :: EP c0 k t :: a).
-      generalize (mkS (s_time s) (s_cnt s) (upd2 (s_link s) c0 k ss')) at 1.
-      intros s0 l H.
-      assert (Q : forall ins k0 s1 a1 s1' a1' e1, s_time s1 = s_time s ->
-                  pull_list (fun k1 x1 s2 a2 => pull_input fuel cs s2 (fst (i_src x0)) k1 x1 r a2) k0 ins s1 a1 = (s1', a1', e1) ->
-                  s_time s1' = s_time s).
-      { induction ins as [|y ins IHi]; intros k0 s1 a1 s1' a1' e1 Hs Hp; simpl in Hp; [inversion Hp; subst; exact Hs|].
-        destruct (pull_input fuel cs s1 (fst (i_src x0)) k0 y r a1) as [[s2 a2] e2] eqn:R2.
-        pose proof (IH _ _ _ _ _ _ _ _ _ R2) as T2.
-        destruct e2; [inversion Hp; subst; congruence|]. eapply IHi; [|exact Hp]. congruence. }
-      eapply Q; [|exact H]. Abort.
+  - split; [simpl; rewrite T1; apply upd_ext; exact ET|]. split.
+    + simpl. rewrite (EC c).
+      assert (C1 : s_cnt s1 = s_cnt st).
+      { unfold pull_all in PA. apply Confluence_proofs.pull_list_cnt in PA; [exact PA|].
+        intros k1 x1 t1 a2 t3 a3 e3 R1. eapply Confluence_proofs.pull_input_cnt; eauto. }
+      rewrite C1. apply upd_ext. exact EC.
+    + simpl. intros x y. symmetry. apply E1L.
+  - simpl. rewrite T1. intros x. unfold upd. destruct (Nat.eqb x c); [reflexivity|apply P].
+Qed.
+
+Definition ures_sim (r : ures) (rs : ures_sp) : Prop :=
+  match r, rs with
+  | UUpdated c st acc e, USUpdated c' sp pub acc' e' => c = c' /\ acc = acc' /\ e = e' /\ R sp pub st
+  | UNone, USNone | UCirc, USCirc | UFuel, USFuel => True
+  | _, _ => False
+  end.
+
+Lemma dep_loop_sim cs (rec : nat -> Z -> ures) (recs : nat -> Z -> ures_sp) fin fins :
+  (forall c t, ures_sim (rec c t) (recs c t)) -> ures_sim (fin tt) (fins tt) ->
+  forall deps, ures_sim (dep_loop cs rec fin deps) (dep_loop_sp cs recs fins deps).
+Proof.
+  intros Hrec Hfin. induction deps as [|[o lt] deps IH]; simpl; [exact Hfin|].
+  destruct (is_time cs (fst o)); [apply Hrec|].
+  pose proof (Hrec (fst o) lt) as H. destruct (rec (fst o) lt), (recs (fst o) lt); simpl in H; try contradiction; auto.
+Qed.
+
+Lemma update_rec_sim cs pe (D : dense pe) sp pub st (HR : R sp pub st) acc fuel : forall c chain tgt,
+  ures_sim (update_rec fuel cs st acc c chain tgt) (update_rec_sp fuel cs pe sp pub acc c chain tgt).
+Proof.
+  induction fuel as [|fuel IH]; intros c chain tgt; simpl; [exact I|].
+  destruct (existsb (key_eqb (chain_key cs c tgt)) chain); [exact I|].
+  pose proof (R_with_time sp pub st HR) as EW. destruct HR as [E P] eqn:EE. clear EE.
+  rewrite <- (find_deps_ext cs st (with_time sp pub) c _ EW).
+  rewrite (next_time_ext cs sp st c E).
+  apply dep_loop_sim.
+  - intros c' t'. apply IH.
+  - destruct (is_time cs c); [|exact I].
+    destruct (do_update cs st c acc) as [[st' acc'] e] eqn:DU.
+    destruct (do_update_sim cs pe D sp pub st c acc st' acc' e (conj E P) DU) as [sp' [pub' [DS R']]].
+    rewrite DS. simpl. auto.
+Qed.
+
+Lemma run_loop_sim cs pe (D : dense pe) endt fuel : forall sp pub st acc,
+  R sp pub st ->
+  let '(o, st', acc') := run_loop fuel cs endt st acc in
+  let '(os, sp', accs) := run_loop_sp fuel cs pe endt sp pub acc in
+  o = os /\ acc' = accs /\ st_eq sp' st'.
+Proof.
+  induction fuel as [|fuel IH]; intros sp pub st acc HR; cbn [run_loop run_loop_sp].
+  - destruct HR as [E _]. auto.
+  - destruct HR as [E P] eqn:EE. clear EE.
+    rewrite (pick_min_ext cs sp st E).
+    destruct (pick_min cs st 0 cs None) as [c|]; [|auto].
+    pose proof (update_rec_sim cs pe D sp pub st (conj E P) acc (rec_fuel cs) c [] 0) as S.
+    destruct (update_rec (rec_fuel cs) cs st acc c [] 0) as [u st1 acc1 e1| | |],
+             (update_rec_sp (rec_fuel cs) cs pe sp pub acc c [] 0) as [u' sp1 pub1 accs1 es1| | |];
+      simpl in S; try contradiction; auto.
+    destruct S as [<- [<- [<- R1]]].
+    pose proof (proj1 R1) as E1.
+    destruct e1 as [[| |]|]; try (split; [reflexivity|split; [reflexivity|exact E1]]).
+    rewrite (any_running_ext sp1 st1 endt E1).
+    destruct (any_running st1 0 cs endt); [|auto].
+    apply IH. exact R1.
+Qed.
+
+(** the generalisation with all periods 1 is the model of the theorems *)
+Theorem sparse_refines_dense cs endt fuel :
+  sp_model (dense_as_sparse (cs, endt, fuel)) = sched_model (cs, endt, fuel).
+Proof.
+  unfold sp_model, sched_model, dense_as_sparse, run_sp, run.
+  pose proof (run_loop_sim cs (map (fun _ => 1%nat) cs) (dense_ones cs) endt fuel
+                (init_state cs) (s_time (init_state cs)) (init_state cs) [] (conj (st_eq_refl _) (fun x => eq_refl))) as H.
+  destruct (run_loop fuel cs endt (init_state cs) []) as [[o st'] acc'].
+  destruct (run_loop_sp fuel cs (map (fun _ => 1%nat) cs) endt (init_state cs) (s_time (init_state cs)) []) as [[os sp'] accs].
+  destruct H as [-> [-> E]]. now rewrite (final_times_ext cs sp' st' E).
+Qed.
